@@ -182,7 +182,9 @@ m('c18-revert-astral', 'C18', G, "    return '{}: {}'.format(_quote_text(name), 
 m('c17-revert-astral', 'C17', G, "    return '{}: {}'.format(_quote_text(name), _quote_text(check_str))\n",
   "    return '{}: {}'.format(jsonutils.dumps(name), jsonutils.dumps(check_str))\n",
   'revert fix dcc0587 (sample generator side)')
-m('c18-revert-d8', 'C18', G, "    if not isinstance(check_str, str):\n        # A rule in the legacy list-of-lists syntax; write out the equivalent\n        # check string\n        check_str = str(_parser.parse_rule(check_str))\n", "", 'revert list part of fix D8')
+m('c18-revert-d13', 'C18', G, "        return '[%s]' % ', '.join(_quote_rule(entry) for entry in check_str)\n",
+  "        return _quote_text(str(_parser.parse_rule(check_str)))\n",
+  'revert fix D13 (d91abb8): a list-of-lists rule is written as the check string it prints as; entries with blanks or parentheses stop being single checks')
 m('c18-generator-prefers-default', 'C18', G, "                        if name not in enforcer.file_rules]", "                        if name not in enforcer.file_rules or name.endswith('split1')]", 'generator emits the registered default after a file rule for one name (last wins)')
 m('c18-convert-comment-override', 'C18', G, "            if file_rule == default_rule:\n                rule_text = _format_rule_default_yaml(\n                    file_rule, add_deprecated_rules=False)",
   "            if file_rule == default_rule or str(file_rule.check) == '@':\n                rule_text = _format_rule_default_yaml(\n                    file_rule, add_deprecated_rules=False)", 'convert comments out an always-allow override')
